@@ -221,6 +221,7 @@ static int explore(const char * opsfile, long maxstates, const char * outpath) {
         head++;
     }
     fclose(f);
+    free(states); free(hkeys); free(hidx); free(ops);
     printf("{\"concrete_states\":%ld,\"transitions\":%ld,\"complete\":%s}\n", nstates, ntrans, complete ? "true" : "false");
     return 0;
 }
@@ -261,6 +262,9 @@ static int walk(unsigned long seedv, long steps, const char * outpath) {
             strcpy(o.kind, kinds[rnd() % 3]);
             strcpy(o.name, regnames[1 + rnd() % 9]);
             o.val = rndval(); o.hasval = 1;
+        } else if (r < 43) {
+            /* the application acknowledges / re-raises the request bit itself: MSS must stay a function of the rest */
+            strcpy(o.kind, (rnd() & 1) ? "clrbits" : "setbits"); strcpy(o.name, "STB"); o.val = 64; o.hasval = 1;
         } else if (r < 55) { strcpy(o.kind, "push"); o.val = codes[rnd() % (sizeof codes / sizeof codes[0])]; }
         else if (r < 62) strcpy(o.kind, "pop");
         else if (r < 64) strcpy(o.kind, "clear");
@@ -306,6 +310,7 @@ static int path(const char * opsfile, const char * outpath) {
         record(f, from, &ops[i]);
     }
     fclose(f);
+    free(ops);
     return 0;
 }
 
